@@ -922,6 +922,41 @@ theorem blinded_forward_keeps_fee (inAmt inCltv : Nat) (r : PaymentRelay) (pc : 
         · simp [hv] at h
     · simp [ha, chkSub, hd] at h
 
+open Ldk.BlindedGen in
+/-- **blinded_forward_amount_exact.** The rounding direction stated exactly: `amt_to_forward_msat` returns THE largest amount
+    whose promised fee still fits into the inbound amount — it never rounds against the node (`blinded_forward_keeps_fee`) and never
+    withholds more than it must (every larger amount would eat into the fee); `None` exactly when not even 1 msat can be forwarded. -/
+theorem blinded_forward_amount_exact (inAmt : Nat) (r : PaymentRelay) :
+    (∀ a, amtToForwardMsat inAmt r = some a →
+        0 < a ∧ a + relayFee r a ≤ inAmt ∧ ∀ b, a < b → ¬ (b + relayFee r b ≤ inAmt)) ∧
+    (amtToForwardMsat inAmt r = none → ∀ b, 0 < b → ¬ (b + relayFee r b ≤ inAmt)) := by
+  have mono : ∀ x y : Nat, x ≤ y → x + relayFee r x ≤ y + relayFee r y := by
+    intro x y hxy
+    have h1 : x * r.fee_proportional_millionths / 1000000 ≤ y * r.fee_proportional_millionths / 1000000 :=
+      Nat.div_le_div_right (Nat.mul_le_mul_right _ hxy)
+    simp only [relayFee]; omega
+  constructor
+  · intro a h
+    obtain ⟨h0, h1⟩ := amt_to_forward_sound inAmt r a h
+    refine ⟨h0, h1, fun b hb hfit => amt_to_forward_maximal inAmt r a h ?_⟩
+    exact Nat.le_trans (mono (a + 1) b hb) hfit
+  · intro h b hb hfit
+    -- `none`: the base fee alone exceeds the inbound amount, or the rounded amount is 0 and 1 msat does not fit
+    have h1fit : 1 + relayFee r 1 ≤ inAmt := Nat.le_trans (mono 1 b hb) hfit
+    obtain ⟨delta, prop, base⟩ := r
+    unfold amtToForwardMsat at h
+    simp only [relayFee] at h1fit
+    by_cases hbase : base ≤ inAmt
+    · simp only [chkSub, hbase, if_true] at h
+      generalize ha0 : (inAmt - base) * 1000000 / (prop + 1000000) = a0 at h
+      by_cases hc : inAmt ≥ a0 + 1 + ((a0 + 1) * prop / 1000000 + base)
+      · simp [hc] at h
+      · simp [hc] at h
+        subst h
+        simp at hc
+        omega
+    · omega
+
 example : Ldk.BlindedGen.checkBlindedForward 101000 500 ⟨72, 0, 1000⟩ ⟨600, 1⟩ false = some (100000, 428) := by decide
 /-- rounding boundaries: 1 % fee — 101 msat in forwards 100 (fee 1), 100 msat in forwards 99 (fee 0 by the node's own rule, 1 msat kept) -/
 example : Ldk.BlindedGen.amtToForwardMsat 101 ⟨0, 10000, 0⟩ = some 100 := by decide
